@@ -147,7 +147,8 @@ class C02(Check):
                              'exc': mrng.choice(EXC_KINDS)}
             return case
         data, info = F.build(rec)
-        if mode in ('stream', 'detect') and st('trunc').random() < 0.3:
+        if mode in ('stream', 'detect', 'cli') and \
+                st('trunc').random() < 0.3:
             trng = st('trunc')
             b = info['boundaries'] + [info.get('carrier_end', len(data))]
             b = [x for x in b if x <= len(data)]
